@@ -189,12 +189,33 @@ func (in *c19In) populate(fs filesystem.Filespace) {
 		}
 	}
 	write("helpers/", in.Helpers)
+	if first := in.callTarget(); first != "" {
+		// a helper that *calls* another definition by name: the call must reach the most
+		// specific definition visible in the requesting view, not the helper layer's own
+		f := "helpers/zcall" + in.ext()
+		if err := fs.WriteFile(f, []byte(fmt.Sprintf(`{{define "CALL"}}[{{template "%s"}}]{{end}}`, first)), filesystem.DefaultUnixFileMode); err != nil {
+			panic(harnessTrouble{"C19 populate: " + err.Error()})
+		}
+	}
 	for _, l := range sortedNamesL(in.Layouts) {
 		write("layouts/"+l+"/", in.Layouts[l])
 	}
 	for _, v := range sortedNamesL(in.Views) {
 		write("views/"+v+"/sub/", in.Views[v])
 	}
+}
+
+// callTarget is the helper definition that the CALL helper invokes ("" without helpers).
+func (in *c19In) callTarget() string {
+	names := []string{}
+	for n := range in.Helpers {
+		names = append(names, n)
+	}
+	if len(names) == 0 {
+		return ""
+	}
+	sort.Strings(names)
+	return names[0]
 }
 
 func sortedNamesL(m map[string]c19Layer) []string {
@@ -258,6 +279,18 @@ func c19Check(in *c19In, rq c19Req, s tmplSet, who string) *Failure {
 		}
 		if got != want {
 			return failf("C19/wrong-layer-wins", rq.Kind, "%s %+v: %q renders %q, expected %q (more specific layer overrides)", who, rq, n, got, want)
+		}
+	}
+	if first := in.callTarget(); first != "" {
+		if !s.lookup("CALL") {
+			return failf("C19/definition-missing", rq.Kind, "%s %+v: helper definition \"CALL\" is not in the returned template", who, rq)
+		}
+		got, err := s.render("CALL")
+		if err != nil {
+			return failf("C19/render-error", rq.Kind, "%s %+v: rendering \"CALL\" failed: %v", who, rq, err)
+		}
+		if want := "[" + exp[first] + "]"; got != want {
+			return failf("C19/wrong-layer-wins", rq.Kind+"/call", "%s %+v: the helper that calls %q renders %q, expected %q (a call reaches the most specific definition of this request)", who, rq, first, got, want)
 		}
 	}
 	return nil
